@@ -121,8 +121,42 @@ class _TimeProxy(object):
         return CUR.blocking_sleep(d)
 
 
+class _SelectProxy(object):
+    """select.select as Arbiter.manage_watchers uses it (zero timeout on the managed sockets): the environment says
+    whether a connection is waiting"""
+
+    def __getattr__(self, name):
+        import select as _real_select
+        return getattr(_real_select, name)
+
+    def select(self, r, w, x, timeout=None):
+        ready = bool(CUR.sock_ready) and bool(r)
+        CUR.rec("select", r="ready" if ready else "none")
+        return (list(r) if ready else [], [], [])
+
+
+class FakeCircusSocket(object):
+    """a managed socket as far as the arbiter's periodic check looks at it"""
+
+    so_reuseport = False
+    replace = False
+
+    def __init__(self, name, fd):
+        self.name, self._fd = name, fd
+
+    def fileno(self):
+        return self._fd
+
+    def bind_and_listen(self):
+        pass
+
+    def close(self):
+        pass
+
+
 _os_proxy = _OsProxy()
 _time_proxy = _TimeProxy()
+_select_proxy = _SelectProxy()
 
 
 def _patch_modules():
@@ -133,6 +167,7 @@ def _patch_modules():
     circus.arbiter.time = _time_proxy
     circus.process.time = _time_proxy
     circus.arbiter.Controller = SimController
+    circus.arbiter.select = _select_proxy
 
 
 class FakeStream(object):
@@ -276,6 +311,7 @@ class Sim(object):
         self.in_cb = False
         self._probing = False
         self._all_watchers = []
+        self.sock_ready = False       # a connection is waiting on a managed socket (on_demand watchers)
         self.config_file = config_file
         self.file_mode = bool(file_mode)
         self.file_specs = None        # what the configuration file says now (file mode)
@@ -397,7 +433,16 @@ class Sim(object):
         self.arb = circus.arbiter.Arbiter(ws, "sim://ctrl", "sim://pub", check_delay=self.check_delay,
                                           context=FakeContext(self), loop=self.io,
                                           warmup_delay=self.warmup_delay)
+        if any(sp.get("on_demand") for sp in self.wspecs):
+            self.arb.sockets["sim"] = FakeCircusSocket("sim", 1000)
         self.rec("init", cfg=self.header())
+
+    def socket_event(self, ready):
+        """environment: a connection arrives on a managed socket / has been accepted"""
+        if self.exited:
+            return
+        self.sock_ready = bool(ready)
+        self.rec("sockev", a=1 if ready else 0)
 
     @staticmethod
     def polls(G):
